@@ -258,7 +258,14 @@ class CommentStyle:
         lines = text.splitlines()
         end: Optional[int] = None
 
-        if cls.can_handle_single():
+        # Like in parse_comment, a multi-line start marker that begins with the
+        # single-line marker (Julia's '#=' and '#') is a multi-line comment.
+        starts_multi = cls.can_handle_multi() and text.startswith(
+            cls.MULTI_LINE.start
+        )
+        if cls.can_handle_single() and not (
+            starts_multi and cls.MULTI_LINE.start.startswith(cls.SINGLE_LINE)
+        ):
             for i, line in enumerate(lines):
                 if (
                     cls.SINGLE_LINE_REGEXP
